@@ -3,6 +3,7 @@ package main
 import (
 	"encoding/json"
 	"fmt"
+	"regexp"
 	"sort"
 	"strings"
 	"sync"
@@ -64,11 +65,14 @@ type eObs struct {
 	NilMap    bool                   `json:"nilmap"`
 	Panic     string                 `json:"panic,omitempty"`
 	Hang      bool                   `json:"hang"`
-	Held      bool                   `json:"held"`   // the held rule did reach its gate
-	During    int                    `json:"during"` // events recorded while the rule was held
-	Late      int                    `json:"late"`   // events recorded AFTER the call had returned
+	Held      bool                   `json:"held"`      // the held rule did reach its gate
+	During    int                    `json:"during"`    // events recorded while the rule was held
+	Late      int                    `json:"late"`      // events recorded AFTER the call had returned
+	ErrRules  []string               `json:"err_rules"` // the rule names the returned error mentions (taken from the full text)
 	Compile   string                 `json:"compile,omitempty"`
 }
+
+var errRuleRe = regexp.MustCompile(`rule:? "([^"]*)" executed`)
 
 type observer struct {
 	mu     sync.Mutex
@@ -86,6 +90,13 @@ func (o *observer) E(n string) {
 	o.events = append(o.events, [2]string{"E", n})
 	o.mu.Unlock()
 }
+
+// BigBoom panics with a very large value: whatever formats or copies the resulting error takes milliseconds, which widens
+// every window between "this rule is done" and "its failure is recorded"
+var bigText = strings.Repeat("x", 2<<20)
+
+func (o *observer) BigBoom() { panic(bigText) }
+
 func (o *observer) count() int {
 	o.mu.Lock()
 	defer o.mu.Unlock()
@@ -148,6 +159,8 @@ func eRuleText(r eRule) string {
 		sb.WriteString("  return !5\n")
 	case "loop": // unbounded for loop: cut off after maxExecuteNum iterations
 		sb.WriteString("  for i = 0; true; i += 1 {\n  }\n")
+	case "bigfail": // fails with a 2 MiB error text
+		sb.WriteString("  Obs.BigBoom()\n")
 	case "retpriv": // the return expression evaluates, but the value cannot leave the rule (Interface() panics): the rule FAILED
 		sb.WriteString("  return Obs.priv\n")
 	case "brk": // a break that is in no loop (grammatically legal): the rule fails, it has NOT returned
@@ -399,6 +412,14 @@ func runEngineCase(c *eCase) eObs {
 	if d.err != nil {
 		obs.Err = true
 		obs.ErrMsg = d.err.Error()
+		seen := map[string]bool{}
+		for _, m := range errRuleRe.FindAllStringSubmatch(obs.ErrMsg, -1) { // from the FULL text, before it is cut
+			if !seen[m[1]] {
+				seen[m[1]] = true
+				obs.ErrRules = append(obs.ErrRules, m[1])
+			}
+		}
+		sort.Strings(obs.ErrRules)
 		if len(obs.ErrMsg) > 3000 {
 			obs.ErrMsg = obs.ErrMsg[:3000]
 		}
